@@ -10,4 +10,6 @@ cd ..
 cp /repo/Cargo.lock harness/Cargo.lock
 cd harness
 CARGO_NET_OFFLINE=true CARGO_TARGET_DIR=/verif/.cache/target cargo build --release --offline
+# second feature set for C19 (rayon build of strand)
+CARGO_NET_OFFLINE=true CARGO_TARGET_DIR=/verif/.cache/target-rayon cargo build --release --offline --features rayon
 echo setup-ok
